@@ -2686,6 +2686,10 @@ def namespace_to_flowir(
         environment = comp.environment
         command = comp.flowir["command"]
 
+        if isinstance(environment, dict) and isinstance(command.get("environment"), dict):
+            # VV: Use the copy of the environment whose parameter references have just been resolved
+            environment = command["environment"]
+
         if environment == {}:
             command["environment"] = "none"
             continue
